@@ -69,6 +69,9 @@ def strTruthy : Option (List Char) → Bool
   | some (_ :: _) => true
   | _ => false
 
+/-- `x or y` on `Optional[str]` (`style._link or self._link`). -/
+def linkOr (x y : Option (List Char)) : Option (List Char) := if strTruthy x then x else y
+
 namespace Style
 
 /-- The tuple `__init__` hashes, recomputed from the current fields. -/
@@ -158,11 +161,11 @@ def add (v : Variant) (self style : Style) : Style :=
   else if self.isNull then style
   else
     -- `style._color or self._color`: a `Color` (non-empty tuple) is always truthy
-    let color := match style.color with | some c => some c | none => self.color
-    let bgcolor := match style.bgcolor with | some c => some c | none => self.bgcolor
+    let color := style.color.or self.color
+    let bgcolor := style.bgcolor.or self.bgcolor
     let attributes := andNot self.attributes style.setAttributes ||| (style.attributes &&& style.setAttributes)
     let setAttributes := self.setAttributes ||| style.setAttributes
-    let link := if strTruthy style.link then style.link else self.link
+    let link := linkOr style.link self.link
     { color := color, bgcolor := bgcolor, attributes := attributes, setAttributes := setAttributes,
       link := link,
       hash := if v.addHash then style.hash else ⟨color, bgcolor, some attributes, some setAttributes, link⟩,
